@@ -27,15 +27,33 @@ def _run(cmd, cwd, timeout):
         return 124, (out or "") + "\nTIMEOUT after %ss" % timeout, time.time() - t
 
 
-def make(targets=None, jobs=16, timeout=1500):
-    """(Re)build the development (full .vo build, never -vos). Returns (ok, log)."""
-    if not os.path.exists(os.path.join(COQ, "Makefile")):
-        rc, out, _ = _run(["coq_makefile", "-f", "_CoqProject", "-o", "Makefile"], COQ, 120)
-        if rc != 0:
-            return False, out
-    cmd = ["make", "-j%d" % jobs] + (targets or [])
-    rc, out, dt = _run(cmd, COQ, timeout)
-    return rc == 0, out
+def _vfiles():
+    out = []
+    for root, _, files in os.walk(COQ):
+        for f in files:
+            if f.endswith(".v"):
+                out.append(os.path.relpath(os.path.join(root, f), COQ))
+    return sorted(out)
+
+
+def make(targets=None, jobs=16, timeout=3000):
+    """(Re)build the development (full .vo build, never -vos). Returns (ok, log).
+    Serialised by a file lock so that concurrent checks do not run two makes at once."""
+    import fcntl
+    os.makedirs(BUILD, exist_ok=True)
+    with open(os.path.join(BUILD, "make.lock"), "w") as lk:
+        fcntl.flock(lk, fcntl.LOCK_EX)
+        vs = _vfiles()
+        stamp = os.path.join(COQ, ".vfiles")
+        old = open(stamp).read() if os.path.exists(stamp) else ""
+        if old != "\n".join(vs) or not os.path.exists(os.path.join(COQ, "Makefile")):
+            rc, out, _ = _run(["coq_makefile", "-f", "_CoqProject", "-o", "Makefile"] + vs, COQ, 120)
+            if rc != 0:
+                return False, out
+            open(stamp, "w").write("\n".join(vs))
+        cmd = ["make", "-j%d" % jobs] + (targets or [])
+        rc, out, dt = _run(cmd, COQ, timeout)
+        return rc == 0, out
 
 
 def props_file(pid):
